@@ -54,7 +54,7 @@ def run(tier, v):
     details.update(d3)
     bins = vlib.build_cmds(("trz", "tsz"))
     out4 = os.path.join(vlib.scratch(), "c01proc")
-    s4 = vlib.run_driver(h, "c01_process", out4, {"bindir": os.path.dirname(bins["trz"]), "runs": 16 if quick else 160, "shards": 16}, timeout=1500)
+    s4 = vlib.run_driver(h, "c01_process", out4, {"bindir": os.path.dirname(bins["trz"]), "runs": 48 if quick else 480, "shards": 16}, timeout=1500)
     f4, d4 = E.gather(out4, 2)
     details.update(d4)
     obs = E.strip_lines(files + f2 + f3 + f4, out)
